@@ -186,6 +186,24 @@ func (e *Engine) Verify(ct *Contract, prop string, findings []Finding) (res *Uni
 			u.describe(name, t, v)
 		}
 	}
+	for _, m := range ct.Mutates {
+		parts := strings.SplitN(m, ".", 2)
+		for i, pn := range ct.ParamNames {
+			if pn != parts[0] || len(parts) != 2 || i >= len(args) {
+				continue
+			}
+			sv, ok := args[i].(StructV)
+			stt, ok2 := fn.Params[i].Type().Underlying().(*types.Struct)
+			if !ok || !ok2 {
+				continue
+			}
+			for fi := 0; fi < stt.NumFields(); fi++ {
+				if sl, ok := sv.F[fi].(SliceV); ok && stt.Field(fi).Name() == parts[1] && sl.R != nil {
+					u.modRgn[sl.R] = true
+				}
+			}
+		}
+	}
 	for _, ev := range u.entryDesc {
 		if ev.Kind == "bytes" {
 			for i := int64(0); i < 48; i++ {
